@@ -171,6 +171,29 @@ def hybrid_sweep(c, k=2, steps=(1, 2, 1, 3), with_real_mh=False, nuts_block=Fals
         c.eq(f'sampler_of_{n}_holds_the_blocks_value', samplers[n].current_point, G.current_samples[n])
 
 
+def refresh_contract(c):
+    """HybridGibbs._refresh_cached_target_evaluations: after a block's target has been replaced, every cached evaluation the block
+    sampler declares in its state is that of the NEW target at the current point - the log-density for MH-type samplers, log-density
+    and gradient for gradient-based ones, and the LIKELIHOOD log-density for pCN (whose acceptance ratio is likelihood-only)"""
+    import types
+    x = c.vec('x', 2)
+    logd = lambda v: c.uf('newlogd', *list(v)); grad = lambda v: np.array([c.uf(f'newgrad{i}', *list(v)) for i in range(2)], dtype=object if c.sym else float)
+    like = lambda v: c.uf('newloglike', *list(v))
+    tgt = types.SimpleNamespace(logd=logd, gradient=grad)
+    for name, keys in (('MH_like', {'current_point', 'current_target_logd'}), ('gradient_based', {'current_point', 'current_target_logd', 'current_target_grad'}),
+                       ('pCN_like', {'current_point', 'current_likelihood_logd'})):
+        smp = types.SimpleNamespace(_STATE_KEYS=keys, target=tgt, current_point=x, _loglikelihood=like,
+                                    current_target_logd='stale', current_target_grad='stale', current_likelihood_logd='stale')
+        HybridGibbs._refresh_cached_target_evaluations(smp)
+        if 'current_target_logd' in keys: c.eq(f'{name}:cached_log_density_is_the_new_targets', smp.current_target_logd, logd(x))
+        else: c.holds(f'{name}:undeclared_log_density_cache_untouched', smp.current_target_logd == 'stale')
+        if 'current_target_grad' in keys: c.eq(f'{name}:cached_gradient_is_the_new_targets', smp.current_target_grad, grad(x))
+        else: c.holds(f'{name}:undeclared_gradient_cache_untouched', isinstance(smp.current_target_grad, str))
+        if 'current_likelihood_logd' in keys: c.eq(f'{name}:cached_likelihood_value_is_the_new_LIKELIHOOD_log_density', smp.current_likelihood_logd, like(x))
+        else: c.holds(f'{name}:undeclared_likelihood_cache_untouched', smp.current_likelihood_logd == 'stale')
+        c.holds(f'{name}:current_point_untouched', smp.current_point is x)
+
+
 def hybrid_continue(c):
     """sample(1) twice == resume from the last stored values (values as terms)"""
     names = ['a', 'b']; dims = {'a': 2, 'b': 1}
@@ -253,6 +276,7 @@ def jobs(tier):
         J.append(Job(f'HybridGibbs.sweep:blocks=3:steps=2-1-3:num_sampling_steps_{sa}', lambda c, sa=sa: hybrid_sweep(c, 3, (2, 1, 3, 2), False, False, sa), 'Pbox', HG, maxpaths=64))
     J.append(Job('HybridGibbs.sweep:real_MH_block:blocks=2', lambda c: hybrid_sweep(c, 2, (1, 2), True), 'Pbox', HG + ['cuqi.experimental.mcmc._mh:MH.step'], maxpaths=256))
     J.append(Job('HybridGibbs.sweep:NUTS_typed_block:blocks=2', lambda c: hybrid_sweep(c, 2, (2, 1), False, True), 'Pbox', HG, maxpaths=64))
+    J.append(Job('HybridGibbs._refresh_cached_target_evaluations:per_declared_state_key', refresh_contract, 'Pbox', ['cuqi.experimental.mcmc._gibbs:HybridGibbs._refresh_cached_target_evaluations']))
     J.append(Job('HybridGibbs:continuation_and_warmup', hybrid_continue, 'Pbox', HG + ['cuqi.experimental.mcmc._gibbs:HybridGibbs.sample', 'cuqi.experimental.mcmc._gibbs:HybridGibbs.warmup']))
     LG = ['cuqi.sampler._gibbs:Gibbs.step', 'cuqi.sampler._gibbs:Gibbs.sample', 'cuqi.sampler._gibbs:Gibbs._get_initial_points', 'cuqi.sampler._gibbs:Gibbs._store_samples', 'cuqi.sampler._gibbs:Gibbs._allocate_samples']
     for k in (2, 3):
